@@ -229,6 +229,22 @@ func (g *Gen) creditTypeAbbrev(v *Snapshot, mode int) string {
 	return v.CreditTypes[g.R.Intn(len(v.CreditTypes))].Abbreviation
 }
 
+// oneAspect implements "near miss = exactly one precondition broken": in near-miss mode one of
+// the named aspects is chosen and only that one is generated in near-miss mode; the others are
+// generated valid. In the other modes every aspect gets the message's mode.
+func (g *Gen) oneAspect(mode int, aspects ...string) func(string) int {
+	if mode != ModeNearMiss {
+		return func(string) int { return mode }
+	}
+	chosen := aspects[g.R.Intn(len(aspects))]
+	return func(a string) int {
+		if a == chosen {
+			return ModeNearMiss
+		}
+		return ModeValid
+	}
+}
+
 func neighbourID(r *PRNG, id string) string {
 	switch r.Intn(5) {
 	case 0:
@@ -594,7 +610,8 @@ func init() {
 	// ---- governance (base) ----
 	auth := func(a *Actor) string { return a.Addr } // users put their own address: must be rejected
 	regKind("AddCreditType", true, func(g *Gen, a *Actor, v *Snapshot, mode int) sdk.Msg {
-		ab := Pick(g.R, []string{"BIO", "KSH", "AB", "Z", "XYZ"})
+		// incl. abbreviations that are prefixes of one another (C / CA / CAB, B / BI / BIO, K / KSH)
+		ab := Pick(g.R, []string{"BIO", "KSH", "AB", "Z", "XYZ", "CA", "CAB", "B", "BI", "K", "C"})
 		prec := uint32(6)
 		if mode != ModeValid && g.R.Chance(0.5) {
 			prec = uint32(g.R.Range(0, 9))
@@ -674,21 +691,61 @@ func init() {
 			return nil
 		}
 		bk := v.Baskets[g.R.Intn(len(v.Baskets))]
+		md := g.oneAspect(mode, "amount", "admission")
+		// admissible (basket, batch) pairs for this owner, as the view sees them
+		type pair struct {
+			bk  *basketv1.Basket
+			b   *basev1.Batch
+			bal *big.Rat
+		}
+		var adm []pair
+		if md("admission") == ModeValid {
+			for _, bb := range v.Balances {
+				if AddrStr(bb.Address) != a.Addr {
+					continue
+				}
+				tr, ok := DecOrZero(bb.TradableAmount)
+				b := v.BatchByKey(bb.BatchKey)
+				if !ok || tr.Sign() <= 0 || b == nil {
+					continue
+				}
+				for _, k := range v.Baskets {
+					if ok, _ := putAdmissible(v, k, b, v.Time); ok {
+						adm = append(adm, pair{k, b, tr})
+					}
+				}
+			}
+			if len(adm) > 0 && g.R.Chance(0.85) {
+				bk = adm[g.R.Intn(len(adm))].bk
+			}
+		}
 		m := &baskettypes.MsgPut{Owner: a.Addr, BasketDenom: bk.BasketDenom}
 		n := g.R.Range(1, 3)
 		for i := 0; i < n; i++ {
 			var b *basev1.Batch
 			var bal *big.Rat
-			for try := 0; try < 5; try++ {
-				b, bal = g.targetBatch(v, a, mode)
-				if b == nil || mode != ModeValid || g.basketAllowsClass(v, bk, b) {
-					break
+			var mine []pair
+			for _, p := range adm {
+				if p.bk.Id == bk.Id {
+					mine = append(mine, p)
+				}
+			}
+			if len(mine) > 0 && g.R.Chance(0.9) {
+				p := mine[g.R.Intn(len(mine))]
+				b, bal = p.b, p.bal
+			} else {
+				for try := 0; try < 5; try++ {
+					b, bal = g.targetBatch(v, a, mode)
+					if b == nil || md("admission") != ModeValid || g.basketAllowsClass(v, bk, b) {
+						break
+					}
 				}
 			}
 			if b == nil {
 				break
 			}
-			m.Credits = append(m.Credits, &baskettypes.BasketCredit{BatchDenom: b.Denom, Amount: g.creditAmount(bal, g.precOf(v, b), mode)})
+			p := g.precOf(v, b)
+			m.Credits = append(m.Credits, &baskettypes.BasketCredit{BatchDenom: b.Denom, Amount: g.creditAmount(truncTo(new(big.Rat).Quo(bal, RatI64(int64(n))), p), p, md("amount"))})
 		}
 		if len(m.Credits) == 0 {
 			return nil
@@ -787,16 +844,17 @@ func init() {
 	regKind("Sell", false, func(g *Gen, a *Actor, v *Snapshot, mode int) sdk.Msg {
 		m := &markettypes.MsgSell{Seller: a.Addr}
 		n := g.R.Range(1, 3)
+		md := g.oneAspect(mode, "amount", "denom", "expiration", "price")
 		for i := 0; i < n; i++ {
 			b, bal := g.targetBatch(v, a, mode)
 			if b == nil {
 				break
 			}
 			p := g.precOf(v, b)
-			o := &markettypes.MsgSell_Order{BatchDenom: b.Denom, Quantity: g.creditAmount(truncTo(new(big.Rat).Quo(bal, RatI64(int64(n))), p), p, mode),
-				AskPrice: coinP(g.askDenom(v, mode), g.price()), DisableAutoRetire: g.R.Chance(0.5), Expiration: g.expiration(v, mode)}
-			if mode != ModeValid && g.R.Chance(0.2) {
-				o.AskPrice = coinP(g.askDenom(v, mode), big.NewInt(0))
+			o := &markettypes.MsgSell_Order{BatchDenom: b.Denom, Quantity: g.creditAmount(truncTo(new(big.Rat).Quo(bal, RatI64(int64(n))), p), p, md("amount")),
+				AskPrice: coinP(g.askDenom(v, md("denom")), g.price()), DisableAutoRetire: g.R.Chance(0.5), Expiration: g.expiration(v, md("expiration"))}
+			if md("price") != ModeValid && g.R.Chance(0.3) {
+				o.AskPrice = coinP(g.askDenom(v, md("denom")), big.NewInt(0))
 			}
 			m.Orders = append(m.Orders, o)
 		}
@@ -816,6 +874,7 @@ func init() {
 			return nil
 		}
 		m := &markettypes.MsgUpdateSellOrders{Seller: a.Addr}
+		md := g.oneAspect(mode, "amount", "denom", "expiration")
 		n := g.R.Range(1, 2)
 		for i := 0; i < n; i++ {
 			o := cands[g.R.Intn(len(cands))]
@@ -832,16 +891,16 @@ func init() {
 					tr, _ = DecOrZero(bb.TradableAmount)
 				}
 				if g.R.Chance(0.5) {
-					u.NewQuantity = g.creditAmount(q, p, mode) // decrease (or same)
+					u.NewQuantity = g.creditAmount(q, p, md("amount")) // decrease (or same)
 				} else {
-					u.NewQuantity = g.creditAmount(RatAdd(q, tr), p, mode) // up to everything
+					u.NewQuantity = g.creditAmount(RatAdd(q, tr), p, md("amount")) // up to everything
 				}
 			}
 			if g.R.Chance(0.5) {
-				u.NewAskPrice = coinP(g.askDenom(v, mode), g.price())
+				u.NewAskPrice = coinP(g.askDenom(v, md("denom")), g.price())
 			}
 			if g.R.Chance(0.4) {
-				u.NewExpiration = g.expiration(v, mode)
+				u.NewExpiration = g.expiration(v, md("expiration"))
 			}
 			m.Updates = append(m.Updates, u)
 		}
@@ -1166,6 +1225,10 @@ func (g *Gen) criterionDate(v *Snapshot) (time.Time, bool) {
 }
 
 func (g *Gen) askDenom(v *Snapshot, mode int) string {
+	if len(v.Markets) > 0 && g.R.Chance(0.2) {
+		// a denom that has (had) a market: it may have been removed from the allowed list since
+		return v.Markets[g.R.Intn(len(v.Markets))].BankDenom
+	}
 	if mode == ModeValid && len(v.AllowedDenoms) > 0 {
 		return v.AllowedDenoms[g.R.Intn(len(v.AllowedDenoms))].BankDenom
 	}
@@ -1187,8 +1250,15 @@ func (g *Gen) expiration(v *Snapshot, mode int) *time.Time {
 	default:
 		t = now.Add(time.Duration(g.R.Range(1, 10)) * 6 * time.Second)
 	}
-	if mode != ModeValid && g.R.Chance(0.4) {
+	if mode == ModeValid && g.R.Chance(0.08) {
+		t = date(Pick(g.R, []int{2263, 2300, 2554, 5000, 9000}), 6, 15) // far future, valid
+	}
+	if (mode == ModeNearMiss) || (mode == ModeHostile && g.R.Chance(0.4)) {
 		t = now.Add(-time.Duration(g.R.Range(0, 5)) * time.Second) // already passed / equal to block time
+		if g.R.Chance(0.4) {
+			// long passed: the whole valid timestamp range below the block time
+			t = date(Pick(g.R, []int{1, 300, 500, 900, 1000, 1500, 1600, 1677, 1700, 1900, 1969, 1970, 2000}), time.Month(g.R.Range(1, 12)), g.R.Range(1, 28))
+		}
 	}
 	return &t
 }
@@ -1285,7 +1355,7 @@ func (g *Gen) contentHash(mode int, graphOnly bool) *data.ContentHash {
 					h.canon = h.canon%255 + 1
 				}
 			} else {
-				h.ext = Pick(g.R, []string{"pdf", "csv", "json", "ab", "abcdef"})
+				h.ext = Pick(g.R, []string{"pdf", "csv", "json", "ab", "abcdef", "rdf"})
 			}
 		case 2:
 			if h.graph {
@@ -1300,7 +1370,7 @@ func (g *Gen) contentHash(mode int, graphOnly bool) *data.ContentHash {
 			if h.graph {
 				h.canon, h.ext = 1, ""
 			} else {
-				h.ext = "bin"
+				h.ext = Pick(g.R, []string{"bin", "rdf"})
 			}
 		default: // exact repeat
 		}
@@ -1315,7 +1385,7 @@ func (g *Gen) contentHash(mode int, graphOnly bool) *data.ContentHash {
 			h.canon = Pick(g.R, algoValues)
 			h.merkle = Pick(g.R, []uint32{0, 0, 0, 1, 256})
 		} else {
-			h.ext = Pick(g.R, []string{"pdf", "csv", "json", "jpg", "ab", "abcdef"})
+			h.ext = Pick(g.R, []string{"pdf", "csv", "json", "jpg", "ab", "abcdef", "rdf", "rdf", "ttl", "jsonld", "7z", "00"})
 		}
 	}
 	if graphOnly && !h.graph {
